@@ -34,7 +34,9 @@ static void build_bank() {
     pl::InsSpec d2; d2.id = 4; d2.kon_ms = 2000; d2.koff_ms = 300; d2.drum_key = 45; d2.note_offset = -12; p.ins[62] = d2;
     // key 64 stays blank
     for(auto *bk : {&m, &p}) for(auto &e : bk->ins) e.second.koff_ms = (uint16_t)std::min(65535, e.second.koff_ms * g_koff_scale);
-    g_bank = pl::make_wopn({m, p});
+    // a variation bank (MSB 1) with the same two programs: reached through CC0 in the configuration legs only
+    pl::BankSpec m1 = m; m1.msb = 1;
+    g_bank = pl::make_wopn({m, m1, p});
 }
 
 static bool is_blank_combo(int ch, int patch0, int key) {
@@ -166,6 +168,8 @@ struct RtModel : mcx::Model {
             add(CHIPTYPE, 0, 1, 0, 0, "setChipType(1)", "setChipType", true);
             add(RESET, 0, 0, 0, 0, "reset()", "reset", true);
             add(REMOVEBANK, 0, 0, 0, 0, "removeBank(melodic0)", "removeBank", true);
+            add(REMOVEBANK, 0, 1, 0, 0, "removeBank(melodic MSB1)", "removeBank", true);
+            add(CC, 0, 0, 1, 0, "cc(0,0,1)", "bankSelect", true); add(CC, 0, 0, 0, 0, "cc(0,0,0)", "bankSelect", true);   // variation bank selected / deselected on MIDI channel 0
             // music files offered to a handle that is playing: a song the loader accepts, and one that the sequencer rejects half-way (last event truncated)
             add(LOADSONG, 0, 0, 0, 0, "openData(song)", "songLoad", true); add(LOADSONG, 0, 1, 0, 0, "openData(truncated song: rejected)", "songLoadRejected", true);
         }
@@ -466,7 +470,7 @@ struct RtModel : mcx::Model {
         case SWITCHEMU: opn2_switchEmulator(d, o.a); break;
         case CHIPTYPE: opn2_setChipType(d, o.a); break;
         case RESET: opn2_reset(d); break;
-        case REMOVEBANK: { OPN2_BankId id = {0, 0, 0}; OPN2_Bank b; if(opn2_getBank(d, &id, 0, &b) == 0) opn2_removeBank(d, &b); break; }
+        case REMOVEBANK: { OPN2_BankId id = {0, (OPN2_UInt8)o.a, 0}; OPN2_Bank b; if(opn2_getBank(d, &id, 0, &b) == 0) opn2_removeBank(d, &b); break; }
         case LOADSONG: { unsigned long n = (unsigned long)g_song.size() - (o.a ? 2 : 0); int rc = opn2_openData(d, g_song.data(), n); if(rc == 0) I.song_loaded = true; else if(!o.a) { v.fail(g_prop + "/harness", std::string("the valid song was rejected: ") + opn2_errorInfo(d)); return; } break; }
         case TICKSEQ: { uint64_t w0 = I.in.tap.nwrites; opn2_tickEvents(d, o.ms / 1000.0, 0.0001); if(I.in.tap.nwrites != w0) tags |= 1ull << T_SEQ_EVENT; break; }
         }
